@@ -293,8 +293,10 @@ def _loop_world(c, spec, with_b, b_first, U):
     with fl.simulated_datetime:
         for k in range(U):
             box["k"] = k
-            bk = cm.book([cm.runner(1, atb=[{"price": 2.0, "size": spec["atb"]}], atl=[{"price": 4.0, "size": 50.0}]),
-                          cm.runner(2, atb=[{"price": 2.0, "size": spec["atb"]}], atl=[{"price": 4.0, "size": 50.0}])], version=7, pt_ms=cm.T0_MS + 1000 * k)
+            # (from the third book on the back side has moved up through the resting orders' price: only matters in available-prices mode)
+            bp = 2.0 if k < 2 or not spec.get("cross") else 3.5
+            bk = cm.book([cm.runner(1, atb=[{"price": bp, "size": spec["atb"]}], atl=[{"price": 4.0, "size": 50.0}]),
+                          cm.runner(2, atb=[{"price": bp, "size": spec["atb"]}], atl=[{"price": 4.0, "size": 50.0}])], version=7, pt_ms=cm.T0_MS + 1000 * k)
             fl._process_market_books(events.MarketBookEvent([bk]))
     market = fl.markets.markets[cm.MID]
     final = [(o.status.name if o.status else None, o.size_matched, o.size_remaining, o.bet_id is not None) for o in orders["A"]]
@@ -305,8 +307,9 @@ def h13e(c, U=3):
     """loop level, two worlds over the same symbolic run: strategy A alone and alongside a strategy B (both registration orders): what A
     is told (every callback, its order of delivery, the order states it is shown) and what becomes of its orders is identical;
     an exception raised inside a `with market.transaction()` block of a strategy is contained and leaves no order orphaned"""
-    with cm.config_set(simulated=True, place_latency=0.0, cancel_latency=0.0, raise_errors=False):
-        spec = {"atb": c.cents("atb_size", 1, 100000)}
+    avail = c.choose("simulation_available_prices", [False, True])
+    with cm.config_set(simulated=True, place_latency=0.0, cancel_latency=0.0, raise_errors=False, simulation_available_prices=avail):
+        spec = {"atb": c.cents("atb_size", 1, 100000), "cross": avail}
         spec["A"] = dict(action=c.choose("A_action", ["cross", "rest", "raise-inside-transaction", "none"]), size=c.cents("A_size", 200, 100000), selection=1)
         spec["B"] = dict(action=c.choose("B_action", ["none", "rest", "cross", "raise-inside-transaction"]), size=c.cents("B_size", 200, 100000),
                          selection=c.choose("B_selection", [1, 2]))
